@@ -9,6 +9,8 @@ from pyvc.stubs import np as snp
 from pyvc.stubs import pint as spint
 
 from . import arrays as A
+from . import c05  # noqa: F401  (call-site contract of the hist2d kernel)
+from . import c18  # noqa: F401  (contracts of normalize / cross used by the orientation code)
 from . import mapkit as K
 from . import native_map as NP
 
@@ -119,8 +121,6 @@ def layer_ops(case):
       uses=["hist2d@histogram2d", "_binary_op", "Array.to", "Array._wrap_numpy"],
       cases=[{"label": "plot=False"}, {"label": "plot=True"}], replay=NP.replay_frames, max_paths=200)
 def histogram2d(case):
-    from . import c05  # noqa: F401  (registers the kernel's call-site contract)
-
     osy = O()
     restore = _install_norm_recorder("osyris.plot.histogram2d")
     del NORMS[:]
@@ -152,8 +152,6 @@ def histogram2d(case):
     prove("layer1.kwargs", L1["params"].get("cmap") == "viridis" and L1["params"].get("alpha") == 0.3)
     prove("layer2.kwargs", L2["params"].get("cmap") == "magma" and L2["params"].get("alpha") == 0.3)
     # operation: layer 1 'mean' (own), layer 2 'sum' (from the call): observed through the data
-    from . import c05
-
     spec = c05.KCALL[0][0]
     iy, ix = core.fresh_int("iy", 0), core.fresh_int("ix", 0)
     core.assume(iy < res)
@@ -206,7 +204,8 @@ def scatter_plot(case):
     del NORMS[:]
     del smisc.MOCK_CALLS[:]
     try:
-        n = core.fresh_int("n", 1)
+        # the scatter wrapper builds one matplotlib patch per point: three points (values, units symbolic)
+        n = core.fresh_int("n", 1) if case["label"] == "plot" else 3
         u = spint.sym_unit("u")
         x = osy.Array(values=snp.sym_array("x", (n,), "float64"), unit=u, name="x")
         y = osy.Array(values=snp.sym_array("y", (n,), "float64"), unit=u, name="y")
@@ -240,8 +239,6 @@ _MAPC = [{"label": "resolution_dict"}, {"label": "resolution_dict,thick"}, {"lab
 @unit("C19", "map", targets=[K.MAP + ":map"], uses=["evaluate_on_grid@map", "_binary_op", "Array.to", "Array._wrap_numpy", "normalize", "Vector.cross"],
       cases=_MAPC, replay=NP.replay_frames, max_paths=64)
 def map_frame(case):
-    from . import c18  # noqa: F401 (contracts of normalize / cross used by the 3-D orientation code)
-
     osy = O()
     restore = _install_norm_recorder(K.MAP)
     del NORMS[:]
